@@ -442,7 +442,10 @@ func (f *Frame) stringOp(x *ssa.BinOp, a, b Val, st *state) {
 }
 
 func (u *Unit) strEq(st *state, a, b Val) string {
-	arr := u.arr(st.mem, strSite, SBV(8))
+	return u.strEqArr(u.arr(st.mem, strSite, SBV(8)), a, b)
+}
+
+func (u *Unit) strEqArr(arr string, a, b Val) string {
 	if a.ConstS != nil && b.ConstS == nil {
 		a, b = b, a
 	}
